@@ -43,7 +43,9 @@ class PyFunc:
     def body(self):
         if self._body is None:
             from .canon import canon_body
-            self._body = canon_body(_expand_new_helpers(self))
+            from . import alpha
+            b_ = alpha.recover(self.module.name, self.qual, self.all_params, _expand_new_helpers(self))
+            self._body = canon_body(alpha.absorb_new_locals(self.module.name, self.qual, self.all_params, b_))
         return self._body
 
     @property
@@ -89,7 +91,9 @@ def _expand_new_helpers(f):
             if any(isinstance(x, (ast.Yield, ast.YieldFrom, ast.Nonlocal, ast.Global)) for x in ast.walk(g.node)):
                 return None
             sa_ = self_arg
-            if sa_ is None and g.cls and c[0] == 'attr' and not g.decorators:
+            if g.decorators and all(d == ('var', 'staticmethod') for d in g.decorators):
+                sa_ = None                   # static method: no receiver parameter
+            elif sa_ is None and g.cls and c[0] == 'attr':
                 return None
             return (q, g.args + g.kwonly, g.defaults, g.raw_body, sa_, None)
         return None
